@@ -63,6 +63,11 @@ def make_pair(rng, N, kind):
     elif kind == "tiny":
         x = 1e-60 * x
         y = 1e-60 * (np.roll(x, 2) * 1e60 + rng.standard_normal(N))
+    elif kind == "with-nonfinite":
+        y = np.roll(x, 1) * 0.6 + 0.8 * s * rng.standard_normal(N)
+        for arr in (x, y):
+            idx = rng.integers(0, N, size=max(1, N // 200))
+            arr[idx] = rng.choice([np.nan, np.inf, -np.inf], size=idx.size)
     elif kind == "huge":
         x = 1e60 * x / s
         y = 1e60 * (np.roll(x, 3) / 1e60 + rng.standard_normal(N))
@@ -72,7 +77,7 @@ def make_pair(rng, N, kind):
 
 
 KINDS = ["random", "random", "delay", "delay", "allpass", "zero-zero", "zero-y", "zero-x",
-         "const", "identical", "negated", "tiny", "huge"]
+         "const", "identical", "negated", "tiny", "huge", "with-nonfinite"]
 
 
 def one_case(rec, seedt, nmax):
